@@ -16,7 +16,8 @@
 //!          kinds = letters of d (SDN to da), q (FDL status request to da), r (SRD to the responder);
 //!          ready with probability num/den per call; hp=1: declines when asked for high priority only
 //!   cg     collision garbage: 0 = bytes completing while another transmission is on the wire are
-//!          lost, 1 = delivered xor 0xA5
+//!          lost, 1 = delivered xor 0xA5; +2 = the PHYs never report an ongoing transmission (poll_transmission
+//!          is always false: the station must rely on its own predicted end of transmission)
 //!   event  `K,<t>,<addr>` stop a station (set_offline; a transmission in progress is cut),
 //!          `R,<t>,<addr>` restart (PHY buffer flushed, set_online), `D,<t>` drop / `F,<t>,<i>,<mask>`
 //!          flip byte i / `T,<t>,<n>` truncate to n bytes: the first transmission starting at or after t,
@@ -77,9 +78,12 @@ struct Bus {
     rxbuf: Vec<Vec<u8>>,
     /// per PHY: end of its own current/last transmission
     tx_end: Vec<i64>,
+    /// per PHY: end of its own transmission as the stack predicts it (floor of the bit time)
+    tx_end_floor: Vec<i64>,
     flights: Vec<InFlight>,
     faults: Vec<(Fault, bool)>,
     collision_garbage: u8,
+    lazy_phy: bool,
     addr: Vec<u8>,
     out: String,
     n_tx: usize,
@@ -201,6 +205,7 @@ impl Bus {
         self.settle(i, now);
         self.rxq[i].retain(|&(t, _)| t >= end);
         self.tx_end[i] = end;
+        self.tx_end_floor[i] = now + 11i64 * data.len() as i64 * 1_000_000 / self.rate;
         for r in 0..n {
             if r == i {
                 continue;
@@ -251,6 +256,11 @@ struct HPhy {
 impl ProfibusPhy for HPhy {
     fn poll_transmission(&mut self, now: Instant) -> bool {
         let bus = self.bus.borrow();
+        if bus.lazy_phy {
+            // a PHY that cannot tell when its transmit FIFO has drained: the station has to rely on
+            // its own prediction of the end of the transmission
+            return false;
+        }
         now.total_micros() < bus.tx_end[self.idx]
     }
 
@@ -271,6 +281,11 @@ impl ProfibusPhy for HPhy {
     {
         let buf = {
             let mut bus = self.bus.borrow_mut();
+            // like SimulatorPhy: receiving while the own transmission is on the wire is an error
+            if now.total_micros() < bus.tx_end_floor[self.idx] {
+                drop(bus);
+                panic!("attempted to receive while still transmitting");
+            }
             bus.settle(self.idx, now.total_micros());
             std::mem::take(&mut bus.rxbuf[self.idx])
         };
@@ -468,9 +483,11 @@ pub fn run_case(line: &str) -> String {
         rxq: (0..nphy).map(|_| VecDeque::new()).collect(),
         rxbuf: (0..nphy).map(|_| Vec::new()).collect(),
         tx_end: vec![i64::MIN; nphy],
+        tx_end_floor: vec![i64::MIN; nphy],
         flights: Vec::new(),
         faults,
-        collision_garbage: cg,
+        collision_garbage: cg & 1,
+        lazy_phy: cg & 2 != 0,
         addr: addrs.clone(),
         out: String::new(),
         n_tx: 0,
@@ -957,7 +974,7 @@ pub fn gen(seed: u64, thorough: bool, out: &mut dyn FnMut(String)) {
             resp: "-".to_string(),
             events: vec![],
             seed: next_seed(&mut rng),
-            cg: 0,
+            cg: if rng.chance(1, 4) { 2 } else { 0 },
         };
         emit(&s, out);
     }
@@ -989,7 +1006,7 @@ pub fn gen(seed: u64, thorough: bool, out: &mut dyn FnMut(String)) {
             resp: "-".to_string(),
             events: vec![],
             seed: next_seed(&mut rng),
-            cg: rng.below(2) as u8,
+            cg: rng.below(2) as u8 + if rng.chance(1, 4) { 2 } else { 0 },
         };
         emit(&s, out);
     }
@@ -1111,7 +1128,7 @@ pub fn gen(seed: u64, thorough: bool, out: &mut dyn FnMut(String)) {
             resp: "-".to_string(),
             events: ev,
             seed: next_seed(&mut rng),
-            cg: rng.below(2) as u8,
+            cg: rng.below(2) as u8 + if rng.chance(1, 4) { 2 } else { 0 },
         };
         emit(&s, out);
     }
